@@ -19,13 +19,8 @@ abbrev Code := List G
 
 def ins (xs : List Instr) : Code := xs.map G.i
 
-/-- `_push_op`: ints, floats (bools are ints) and unit modes are pushed by value -/
-def pushLit (v : Val) : Instr :=
-  match v with
-  | .int _ | .num _ | .bool _ | .mode _ => .pushq v
-  | .str s => .push (.var s)
-  | .operand .null => .push (.lit (.operand .null))
-  | other => .push (.lit other)
+/-- a constant in an expression is pushed by value (`PUSHQ`), whatever its type -/
+def pushLit (v : Val) : Instr := .pushq v
 
 /-- where `_rvalue` delivers: a destination or the evaluation stack -/
 inductive Dest where
